@@ -35,14 +35,14 @@
 (***************************************************************************)
 EXTENDS Naturals, Sequences, FiniteSets, TLC, Json
 
-CONSTANTS MaxEvents, Dev_KeepAliveAdvances, Dev_RepublishNoAck, Dev_TransferEmptyNoResume
+CONSTANTS MaxEvents, Dev_KeepAliveAdvances, Dev_RepublishNoAck, Dev_TransferEmptyNoResume, Dev_UnknownSubKeepsAcks
 
-VARIABLES srvSeq, queue, produced, nextSeq, pend, delivered, ackcnt, dead, hist
-vars == <<srvSeq, queue, produced, nextSeq, pend, delivered, ackcnt, dead, hist>>
+VARIABLES srvSeq, queue, produced, nextSeq, pend, delivered, ackcnt, dead, sent, hist
+vars == <<srvSeq, queue, produced, nextSeq, pend, delivered, ackcnt, dead, sent, hist>>
 
 MaxSeq == MaxEvents + 1
 Init == /\ srvSeq = 0 /\ queue = {} /\ produced = {} /\ nextSeq = 1 /\ pend = {} /\ delivered = <<>>
-        /\ ackcnt = [n \in 1..MaxSeq |-> 0] /\ dead = FALSE /\ hist = <<>>
+        /\ ackcnt = [n \in 1..MaxSeq |-> 0] /\ dead = FALSE /\ sent = {} /\ hist = <<>>
 
 Ev(e) == hist' = Append(hist, e)
 
@@ -62,13 +62,14 @@ Data ==
   /\ Live
   /\ srvSeq' = srvSeq + 1 /\ produced' = produced \cup {srvSeq + 1}
   /\ RecvData(srvSeq + 1, TRUE)
+  /\ sent' = pend \cup {srvSeq + 1}      \* carried by the request that now waits at the server
   /\ Ev("data") /\ UNCHANGED dead
 
 KeepAlive ==
   /\ Live
   /\ nextSeq' = IF Dev_KeepAliveAdvances THEN srvSeq + 2 ELSE srvSeq + 1
   \* the next PublishRequest carries the pending acknowledgements
-  /\ queue' = queue \ pend /\ ackcnt' = Acked(pend) /\ pend' = {}
+  /\ queue' = queue \ pend /\ ackcnt' = Acked(pend) /\ pend' = {} /\ sent' = pend
   /\ Ev("keepalive") /\ UNCHANGED <<srvSeq, produced, delivered, dead>>
 
 \* Republish after a reconnect: from nextSeq on, as long as the server has the message
@@ -84,7 +85,7 @@ Reconnect(s, q, nx, dl, pd, ac) ==
       acks == IF Dev_RepublishNoAck THEN pd ELSE pd \cup repset
   IN /\ delivered' = dl \o rep
      /\ nextSeq' = nx + Len(rep)
-     /\ dead' = noresume
+     /\ dead' = noresume /\ sent' = {}
      /\ IF noresume THEN pend' = pd /\ queue' = q /\ ackcnt' = ac
                     ELSE pend' = {} /\ queue' = q \ acks
                          /\ ackcnt' = [n \in 1..MaxSeq |-> IF n \in acks THEN ac[n] + 1 ELSE ac[n]]
@@ -106,7 +107,24 @@ Cut(s) ==
   /\ Reconnect(s, queue, nextSeq, delivered, pend, ackcnt)
   /\ Ev("cut-" \o s) /\ UNCHANGED <<srvSeq, produced>>
 
-Next == Data \/ KeepAlive \/ DataAckLost \/ (\E s \in {"kept", "lost"} : Lose(s) \/ Cut(s))
+\* The waiting request is answered for ANOTHER subscription which the client has just cancelled and
+\* forgotten (its keep-alive was still queued at the server).  The response settles the acknowledgements
+\* the request carried; as-is deviation of interest: they stay pending and go out a second time.
+\* (C36: the same place where a response the loop does not special-case fans out to all subscriptions.)
+OtherResponse ==
+  /\ Live
+  /\ IF Dev_UnknownSubKeepsAcks THEN ackcnt' = Acked(sent) /\ UNCHANGED sent
+                                 ELSE UNCHANGED ackcnt /\ sent' = {}
+  /\ Ev("other-response") /\ UNCHANGED <<srvSeq, queue, produced, nextSeq, pend, delivered, dead>>
+
+\* a PublishResponse with a bad service result and subscription id 0: every subscription is told
+\* (notifyAllSubscriptionsOfError), the loop pauses, the monitor reconnects with the session kept
+PublishError ==
+  /\ Live
+  /\ Reconnect("kept", queue, nextSeq, delivered, pend, ackcnt)
+  /\ Ev("publish-error") /\ UNCHANGED <<srvSeq, produced>>
+
+Next == Data \/ KeepAlive \/ OtherResponse \/ PublishError \/ DataAckLost \/ (\E s \in {"kept", "lost"} : Lose(s) \/ Cut(s))
 Spec == Init /\ [][Next]_vars
 
 ---------------------------------------------------------------------------
